@@ -98,7 +98,7 @@ fn gen_subs(rng: &mut Rng) -> Vec<(Option<String>, Option<String>)> {
 
 pub fn run(ctx: &Ctx) -> i32 {
     let mut report = ctx.report("C18", "exploration");
-    report.rule = "read_card against the simulated terminal: systematically every UID length 0..20 x every number of leading zero bytes x zero runs in front of the last 7/8 bytes; randomly UID absent / 0..20 bytes (all zero, zero-prefixed, three zero bytes in front of the last 14 digits, nibble patterns, random), application list (tag 60) absent/empty/1-5 entries with and without application ids, no TLV container at all, 0-5 intermediate statuses before the status information, all 256 abort codes; the terminal's own time-out (abort 6C, or a card at the last moment) arriving read_card_timeout seconds + 0.1/0.9/1.5 s after the request for read_card_timeout in {0,1,15,100,253,254,255}; every card is presented twice in the same session, the second time with the irrelevant fields (track data, card type, ATS, SAK, tag-62 applications) changed. Oracle: reference classification of DESIGN 8/C18 (three-valued where the statement is silent); both presentations must give the same result. Non-trivial = every read; distinct by hash of the reported card data / abort code.".into();
+    report.rule = "read_card against the simulated terminal: systematically every UID length 0..20 x every number of leading zero bytes x zero runs in front of the last 7/8 bytes; randomly UID absent / 0..20 bytes (all zero, zero-prefixed, three zero bytes in front of the last 14 digits, nibble patterns, random), application list (tag 60) absent/empty/1-5 entries with and without application ids, no TLV container at all, 0-5 intermediate statuses before the status information, all 256 abort codes; the terminal's own time-out (abort 6C, or a card at the last moment) arriving read_card_timeout seconds + 0.1/0.9/1.5 s after the request for read_card_timeout in {0,1,15,100,253,254,255}; in a quarter of the cases the link hiccups once during the first presentation (close / garbage / NACK / foreign or unexpected packet / reply followed by a close at a random packet; the re-sent request is answered properly); every card is presented twice in the same session, the second time with the irrelevant fields (track data, card type, ATS, SAK, tag-62 applications) changed. Oracle: reference classification of DESIGN 8/C18 (three-valued where the statement is silent); both presentations must give the same result. Non-trivial = every read; distinct by hash of the reported card data / abort code.".into();
     report.exhaustive = Some(false);
     report.assumptions = vec!["applications listed only under tag 62 are recorded, not judged (one of the repository's own captures is such a card)".into()];
     let schema = Arc::new(refcodec::zvt_schema());
@@ -259,6 +259,18 @@ fn fixed_card_case(r: &mut Report, rng: &mut Rng, schema: &Arc<refcodec::layout:
     sc.calls = vec![Call::ReadCard, Call::ReadCard];
     sc.plan.push(2, Cmd::ReadCard, ExPlan { pre: intermediates(n1), card: Some(card.clone()), ..ExPlan::default() });
     sc.plan.push(3, Cmd::ReadCard, ExPlan { pre: intermediates(n2), card: Some(second), ..ExPlan::default() });
+    // now and then the link hiccups once during the first presentation (the client re-sends the request and the
+    // terminal answers it properly): the classification is that of the status information all the same
+    if rng.chance(1, 4) {
+        let ui = rng.below(UNEXPECTED.len() as u64) as u8;
+        let kind = *rng.pick(&[FaultKind::Close, FaultKind::Garbage, FaultKind::Nack, FaultKind::Foreign, FaultKind::CloseAfter, FaultKind::Unexpected(ui)]);
+        let p = rng.below(n1 as u64 + 2) as usize;
+        sc.plan.faults.push(FaultSpec { call: 2, at: At::Tx(p), kind });
+        for _ in 0..2 {
+            sc.plan.push(2, Cmd::ReadCard, ExPlan { pre: intermediates(n1), card: Some(card.clone()), ..ExPlan::default() });
+        }
+        r.count("presentations_with_a_link_hiccup", 1);
+    }
     let tr = run_scenario(&sc, schema);
     r.case(fnv(format!("{card:?}").as_bytes()), true);
     let accepted = reference(&card);
